@@ -6,6 +6,7 @@ import (
 	"runtime"
 	"strings"
 	"sync"
+	"sync/atomic"
 	"testing"
 	"testing/synctest"
 
@@ -13,22 +14,65 @@ import (
 )
 
 // CoopMutex is what scripts see as sync.Mutex under the simulator: the real
-// mutex, acquired with TryLock + cooperative yield (DESIGN 3.5).
-type CoopMutex struct{ mu sync.Mutex }
+// mutex, acquired with TryLock + cooperative yield (DESIGN 3.5). Unlocking an
+// unlocked mutex is a fatal error of the Go runtime that would kill the worker
+// process; it is turned into an ordinary panic of the task, reported as such.
+type CoopMutex struct {
+	mu     sync.Mutex
+	locked atomic.Int32
+}
 
-func (m *CoopMutex) Lock()         { CoopLock(&m.mu, true) }
-func (m *CoopMutex) Unlock()       { m.mu.Unlock() }
-func (m *CoopMutex) TryLock() bool { return m.mu.TryLock() }
+func (m *CoopMutex) Lock() { CoopLock(&m.mu, true); m.locked.Store(1) }
+func (m *CoopMutex) Unlock() {
+	if !m.locked.CompareAndSwap(1, 0) {
+		panic("sync: unlock of unlocked mutex (script-level sync.Mutex)")
+	}
+	m.mu.Unlock()
+}
+func (m *CoopMutex) TryLock() bool {
+	if m.mu.TryLock() {
+		m.locked.Store(1)
+		return true
+	}
+	return false
+}
 
 // CoopRWMutex is the script-visible sync.RWMutex.
-type CoopRWMutex struct{ mu sync.RWMutex }
+type CoopRWMutex struct {
+	mu      sync.RWMutex
+	w       atomic.Int32
+	readers atomic.Int32
+}
 
-func (m *CoopRWMutex) Lock()          { CoopLock(&m.mu, true) }
-func (m *CoopRWMutex) Unlock()        { m.mu.Unlock() }
-func (m *CoopRWMutex) RLock()         { CoopLock(&m.mu, false) }
-func (m *CoopRWMutex) RUnlock()       { m.mu.RUnlock() }
-func (m *CoopRWMutex) TryLock() bool  { return m.mu.TryLock() }
-func (m *CoopRWMutex) TryRLock() bool { return m.mu.TryRLock() }
+func (m *CoopRWMutex) Lock() { CoopLock(&m.mu, true); m.w.Store(1) }
+func (m *CoopRWMutex) Unlock() {
+	if !m.w.CompareAndSwap(1, 0) {
+		panic("sync: Unlock of unlocked RWMutex (script-level sync.RWMutex)")
+	}
+	m.mu.Unlock()
+}
+func (m *CoopRWMutex) RLock() { CoopLock(&m.mu, false); m.readers.Add(1) }
+func (m *CoopRWMutex) RUnlock() {
+	if m.readers.Add(-1) < 0 {
+		m.readers.Add(1)
+		panic("sync: RUnlock of unlocked RWMutex (script-level sync.RWMutex)")
+	}
+	m.mu.RUnlock()
+}
+func (m *CoopRWMutex) TryLock() bool {
+	if m.mu.TryLock() {
+		m.w.Store(1)
+		return true
+	}
+	return false
+}
+func (m *CoopRWMutex) TryRLock() bool {
+	if m.mu.TryRLock() {
+		m.readers.Add(1)
+		return true
+	}
+	return false
+}
 
 // SyncOverride is passed to Use after stdlib.Symbols.
 var SyncOverride = map[string]map[string]reflect.Value{
